@@ -259,6 +259,214 @@ def run_method_names(which='c09'):
     return out
 
 
+def run_c12(lo, hi):
+    """rounding is in the path of the user's arguments: through the decorators built with a tolerance, through klepto.keygen and
+    through the standalone rounding decorators, a parameter named like one of klepto's own (self, f, args, tol, ...) is passed on
+    like any other -- rounding never makes a valid call fail, and equivalent calls still share an entry"""
+    import klepto
+    import klepto.safe
+    import klepto.rounding as R
+    import klepto.keymaps as KM
+    out = {'evaluations': 0, 'distinct': 0, 'violations': [], 'samples': [], 'counters': {'reserved_names': 0}}
+    seen = set()
+
+    def viol(clause, klass, msg, wit):
+        if (clause, klass) in seen:
+            return
+        seen.add((clause, klass))
+        out['violations'].append({'clause': clause, 'klass': klass, 'message': msg, 'witness': wit})
+    decs = []
+    for deep in (False, True):
+        decs += [('klepto.inf_cache(tol=1, deep=%s)' % deep, lambda d=deep: klepto.inf_cache(tol=1, deep=d, keymap=KM.stringmap())),
+                 ('klepto.lfu_cache(tol=1, deep=%s)' % deep, lambda d=deep: klepto.lfu_cache(maxsize=50, tol=1, deep=d, keymap=KM.stringmap())),
+                 ('klepto.safe.lru_cache(tol=1, deep=%s)' % deep, lambda d=deep: klepto.safe.lru_cache(maxsize=50, tol=1, deep=d, keymap=KM.stringmap())),
+                 ('klepto.no_cache(tol=1, deep=%s)' % deep, lambda d=deep: klepto.no_cache(tol=1, deep=d, keymap=KM.stringmap()))]
+    rounders = [('simple_round(tol=1)', lambda: R.simple_round(tol=1)), ('deep_round(tol=1)', lambda: R.deep_round(tol=1)),
+                ('shallow_round(tol=1)', lambda: R.shallow_round(tol=1))]
+    for n in names()[lo:hi]:
+        out['counters']['reserved_names'] += 1
+        for form in FORMS:
+            if form in ('method m(self, n)', 'method m(self, x, n=D)') and n == 'self':
+                continue
+            entered = []
+            try:
+                c, calls = build(n, form, entered)
+            except SyntaxError:
+                continue
+            wit = {'reserved': n, 'form': form, 'check': 'c12'}
+            desc = '%s with n = %r' % (form, n)
+            valid = []
+            for (g, a, k) in calls:
+                del entered[:]
+                try:
+                    c(*a, **k)
+                except TypeError:
+                    if not entered:
+                        continue
+                valid.append((g, a, k))
+            out['distinct'] += len(valid)
+            for (dn, mk) in decs:
+                try:
+                    cc, _ = build(n, form, entered)
+                    f = mk()(cc)
+                except Exception as e:      # noqa
+                    viol('rounding_never_fails_a_valid_call', 'decorating raises', '%s: %s raised %r' % (desc, dn, e), wit)
+                    continue
+                first = {}
+                for (g, a, k) in valid:
+                    out['evaluations'] += 1
+                    want = cc(*a, **k)
+                    del entered[:]
+                    try:
+                        got = f(*a, **k)
+                    except Exception as e:      # noqa
+                        viol('rounding_never_fails_a_valid_call', 'a parameter named like one of klepto\'s own: the call raises once a tolerance is set',
+                             '%s through %s: call args=%r kwds=%r raised %r but the function returns %r' % (desc, dn, a, k, e, want), wit)
+                        continue
+                    if got != want:
+                        viol('function_sees_original_arguments', 'a parameter named like one of klepto\'s own: wrong result with a tolerance',
+                             '%s through %s: call args=%r kwds=%r returned %r, the function %r' % (desc, dn, a, k, got, want), wit)
+                    if g in first and entered and 'no_cache' not in dn:
+                        viol('same_rounding_shares_entry', 'a parameter named like one of klepto\'s own: an equivalent call is recomputed once a tolerance is set',
+                             '%s through %s: call args=%r kwds=%r was evaluated again although %r was cached (info %r)' % (desc, dn, a, k, first[g], f.info()), wit)
+                    first.setdefault(g, (a, k))
+            # klepto.keygen with a tolerance
+            try:
+                cc, _ = build(n, form, entered)
+                kg = klepto.keygen(tol=1, deep=True)(cc)
+                for (g, a, k) in valid:
+                    out['evaluations'] += 1
+                    kg(*a, **k)
+            except Exception as e:      # noqa
+                viol('rounding_never_fails_a_valid_call', 'a parameter named like one of klepto\'s own: klepto.keygen raises once a tolerance is set',
+                     '%s through keygen(tol=1, deep=True): %r' % (desc, e), wit)
+            # the standalone rounding decorators hand on what they are given (no floats here: unchanged)
+            for (rn, mk) in rounders:
+                cc, _ = build(n, form, entered)
+                try:
+                    f = mk()(cc)
+                except Exception as e:      # noqa
+                    viol('rounding_never_fails_a_valid_call', 'decorating raises', '%s: %s raised %r' % (desc, rn, e), wit)
+                    continue
+                for (g, a, k) in valid:
+                    out['evaluations'] += 1
+                    want = cc(*a, **k)
+                    try:
+                        got = f(*a, **k)
+                    except Exception as e:      # noqa
+                        viol('rounding_never_fails_a_valid_call', 'a parameter named like one of klepto\'s own: the standalone rounding decorator raises',
+                             '%s through %s: call args=%r kwds=%r raised %r but the function returns %r' % (desc, rn, a, k, e, want), wit)
+                        continue
+                    if got != want:
+                        viol('non_float_data_intact', 'a parameter named like one of klepto\'s own: the standalone rounding decorator changes the result',
+                             '%s through %s: call args=%r kwds=%r returned %r, the function %r' % (desc, rn, a, k, got, want), wit)
+        if not out['samples']:
+            out['samples'].append({'reserved_name': n, 'forms': FORMS, 'decorators': [x for x, _ in decs] + ['keygen(tol=1, deep=True)'] + [x for x, _ in rounders]})
+    return out
+
+
+def run_c18(lo, hi):
+    """introspection with a user parameter named like one of klepto's own (key, lookup, default, args, ...): for every valid call made
+    through each of the twelve decorators, key(<same arguments>) is a key of the cache, lookup(<same arguments>) returns the
+    stored result and evaluates nothing; for arguments never called lookup raises KeyError"""
+    import klepto
+    import klepto.safe
+    import klepto.keymaps as KM
+    out = {'evaluations': 0, 'distinct': 0, 'violations': [], 'samples': [], 'counters': {'reserved_names': 0}}
+    seen = set()
+
+    def viol(clause, klass, msg, wit):
+        if (clause, klass) in seen:
+            return
+        seen.add((clause, klass))
+        out['violations'].append({'clause': clause, 'klass': klass, 'message': msg, 'witness': wit})
+    decs = []
+    for mod in (klepto, klepto.safe):
+        for cn in ('no_cache', 'inf_cache', 'lfu_cache', 'lru_cache', 'mru_cache', 'rr_cache'):
+            decs.append(('%s.%s' % (mod.__name__, cn), getattr(mod, cn), cn))
+    for n in names()[lo:hi]:
+        out['counters']['reserved_names'] += 1
+        for form in FORMS:
+            if form in ('method m(self, n)', 'method m(self, x, n=D)') and n == 'self':
+                continue
+            entered = []
+            try:
+                c, calls = build(n, form, entered)
+            except SyntaxError:
+                continue
+            wit = {'reserved': n, 'form': form, 'check': 'c18'}
+            desc = '%s with n = %r' % (form, n)
+            valid = []
+            for (g, a, k) in calls:
+                del entered[:]
+                try:
+                    c(*a, **k)
+                except TypeError:
+                    if not entered:
+                        continue
+                valid.append((g, a, k))
+            out['distinct'] += len(valid)
+            for (dn, dec, cn) in decs:
+                kw = {'keymap': KM.keymap()}
+                if cn not in ('no_cache', 'inf_cache'):
+                    kw['maxsize'] = 50
+                try:
+                    cc, _ = build(n, form, entered)
+                    f = dec(**kw)(cc)
+                except Exception as e:      # noqa
+                    viol('introspection_total', 'decorating raises', '%s: %s raised %r' % (desc, dn, e), wit)
+                    continue
+                # nothing called yet: lookup raises KeyError and evaluates nothing
+                for (g, a, k) in valid[:1]:
+                    del entered[:]
+                    out['evaluations'] += 1
+                    try:
+                        r = f.lookup(*a, **k)
+                        viol('lookup_raises_keyerror_when_not_resident', 'a parameter named like one of klepto\'s own: lookup() returns although nothing is stored',
+                             '%s through %s: lookup(args=%r kwds=%r) returned %r on an empty cache' % (desc, dn, a, k, r), wit)
+                    except KeyError:
+                        pass
+                    except Exception as e:      # noqa
+                        viol('lookup_raises_keyerror_when_not_resident', 'a parameter named like one of klepto\'s own: lookup() raises something else',
+                             '%s through %s: lookup(args=%r kwds=%r) raised %r on an empty cache' % (desc, dn, a, k, e), wit)
+                    if entered:
+                        viol('never_evaluates', 'a parameter named like one of klepto\'s own: lookup() evaluates the function', '%s through %s' % (desc, dn), wit)
+                for (g, a, k) in valid:
+                    out['evaluations'] += 3
+                    try:
+                        want = f(*a, **k)
+                    except Exception:      # noqa  (C09/C19's business)
+                        continue
+                    del entered[:]
+                    try:
+                        key = f.key(*a, **k)
+                    except Exception as e:      # noqa
+                        viol('returns_storage_key', 'a parameter named like one of klepto\'s own: key() raises',
+                             '%s through %s: key(args=%r kwds=%r) raised %r after the same call succeeded' % (desc, dn, a, k, e), wit)
+                        continue
+                    if cn != 'no_cache':
+                        try:
+                            present = key in f.__cache__()
+                        except TypeError:
+                            present = True
+                        if not present:
+                            viol('returns_storage_key', 'a parameter named like one of klepto\'s own: key() is not the key the call was stored under',
+                                 '%s through %s: after the call args=%r kwds=%r, key(...) = %r is not among the keys %r' % (desc, dn, a, k, key, list(f.__cache__().keys())[:4]), wit)
+                        try:
+                            got = f.lookup(*a, **k)
+                            if got != want:
+                                viol('returns_resident_value', 'a parameter named like one of klepto\'s own: lookup() returns another entry',
+                                     '%s through %s: lookup(args=%r kwds=%r) returned %r, the call returned %r' % (desc, dn, a, k, got, want), wit)
+                        except Exception as e:      # noqa
+                            viol('returns_resident_value', 'a parameter named like one of klepto\'s own: lookup() raises for a resident entry',
+                                 '%s through %s: lookup(args=%r kwds=%r) raised %r right after the call' % (desc, dn, a, k, e), wit)
+                    if entered:
+                        viol('never_evaluates', 'a parameter named like one of klepto\'s own: key()/lookup() evaluate the function', '%s through %s' % (desc, dn), wit)
+        if not out['samples']:
+            out['samples'].append({'reserved_name': n, 'forms': FORMS, 'decorators': [x for x, _, _ in decs]})
+    return out
+
+
 def run_c19(lo, hi):
     from klepto._inspect import isvalid, validate
     out = {'evaluations': 0, 'distinct': 0, 'violations': [], 'samples': [], 'counters': {'reserved_names': 0}}
@@ -322,7 +530,7 @@ def replay(w):
     lo = names().index(w['reserved']) if w['reserved'] in names() else None
     if lo is None:
         return False, 'the name %r is no longer a parameter name of klepto' % w['reserved']
-    r = (run_c09 if w['check'] == 'c09' else run_c19)(lo, lo + 1)
+    r = {'c09': run_c09, 'c12': run_c12, 'c18': run_c18}.get(w['check'], run_c19)(lo, lo + 1)
     vs = [v for v in r['violations'] if v['witness']['form'] == w['form']]
     if vs:
         return True, vs[0]['message'][:600]
